@@ -439,7 +439,47 @@ fn tree_chains(o: &OwnedSpendBundleConditions, r: &mut StdRng, count: usize) -> 
     out
 }
 
+fn chains_from_json(v: &Value) -> Vec<Chain> {
+    v.as_array()
+        .map(|a| {
+            a.iter()
+                .map(|c| Chain {
+                    prev: bignat_to_u128(&c["prevH"]) as u32,
+                    ts: bignat_to_u128(&c["ts"]) as u64,
+                    births: c["births"]
+                        .as_array()
+                        .map(|b| b.iter().map(|x| Birth { known: x["known"].as_bool().unwrap_or(true), h: bignat_to_u128(&x["h"]) as u32, s: bignat_to_u128(&x["s"]) as u64 }).collect())
+                        .unwrap_or_default(),
+                })
+                .collect()
+        })
+        .unwrap_or_default()
+}
+
+/// re-run recorded events on the current tree (driver: bin/check X03 --replay)
+fn replay_event(e: &Value, r: &mut StdRng, consts: &Consts) -> Option<Value> {
+    match e["k"].as_str() {
+        Some("lat") | Some("rnd") => {
+            let o = agg_from_json(&e["agg"]);
+            let sample: Vec<Value> = chains_from_json(&e["sample"]).iter().map(|ch| chain_json(ch, run_modes(&o, ch))).collect();
+            Some(json!({"k": "rnd", "agg": agg_json(&o), "sample": sample}))
+        }
+        Some("tree") => Some(tree_event_with(&Sx::from_json(&e["tree"]), r, 0, consts, Some(chains_from_json(&e["chains"])))),
+        Some("own") if e.get("tree").is_some() => {
+            let flags = names_from_json(&e["flags"]);
+            let ps = e["pseed"].as_str().and_then(|x| x.parse::<u64>().ok());
+            Some(own_event(&Sx::from_json(&e["tree"]), &flags, e["vis"].as_str() == Some("mempool"), consts, "replay", ps))
+        }
+        Some("probe") => Some(hint_repr_probe(consts)),
+        _ => None,
+    }
+}
+
 fn tree_event(tree: &Sx, r: &mut StdRng, nchains: usize, consts: &Consts) -> Value {
+    tree_event_with(tree, r, nchains, consts, None)
+}
+
+fn tree_event_with(tree: &Sx, r: &mut StdRng, nchains: usize, consts: &Consts, fixed: Option<Vec<Chain>>) -> Value {
     let mut a = Allocator::new();
     let n = tree.to_node(&mut a);
     let sig = Signature::default();
@@ -451,7 +491,10 @@ fn tree_event(tree: &Sx, r: &mut StdRng, nchains: usize, consts: &Consts) -> Val
         Err(p) => json!({"k": "tree", "tree": tree.to_jsonf(), "parse_ok": false, "panic": true, "msg": p, "chains": []}),
         Ok(Err(e)) => json!({"k": "tree", "tree": tree.to_jsonf(), "parse_ok": false, "panic": false, "errname": err_name(&e), "chains": []}),
         Ok(Ok(o)) => {
-            let chains = tree_chains(&o, r, nchains);
+            let chains = match fixed {
+                Some(c) => c,
+                None => tree_chains(&o, r, nchains),
+            };
             let cj: Vec<Value> = chains.iter().map(|ch| chain_json(ch, run_modes(&o, ch))).collect();
             json!({"k": "tree", "tree": tree.to_jsonf(), "parse_ok": true, "panic": false, "r": summary_json(&o), "chains": cj})
         }
@@ -613,6 +656,8 @@ fn own_event(tree: &Sx, flag_names: &[String], mempool: bool, consts: &Consts, s
     ev["k"] = json!("own");
     ev["src"] = json!(src);
     ev["perturbed"] = json!(perturb_seed.is_some());
+    // u64 seeds are logged as strings (a TLC integer has 32 bits)
+    ev["pseed"] = json!(perturb_seed.map(|x| x.to_string()).unwrap_or_default());
     ev["flags"] = json!(flag_names);
     ev["vis"] = json!(if mempool { "mempool" } else { "empty" });
     if ev["ok"].as_bool() == Some(true) {
@@ -625,25 +670,40 @@ fn own_event(tree: &Sx, flag_names: &[String], mempool: bool, consts: &Consts, s
 /// the nil node, new_atom(&[]) and a zero-length substring of a heap atom (what `(substr x n n)` yields).
 fn hint_repr_probe(consts: &Consts) -> Value {
     let mut variants = Vec::new();
-    for how in ["nil", "new_atom", "substr"] {
+    for how in ["nil", "new_atom", "substr", "clvm_substr"] {
         let res = catch(AssertUnwindSafe(|| {
             let mut a = Allocator::new();
             let big = a.new_atom(&[9u8; 40]).expect("atom");
-            let hint = match how {
-                "nil" => a.nil(),
-                "new_atom" => a.new_atom(&[]).expect("atom"),
-                _ => a.new_substr(big, 7, 7).expect("substr"),
-            };
             let nil = a.nil();
-            let memos = a.new_pair(hint, nil).expect("pair");
-            let amt = a.new_atom(&[1]).expect("atom");
-            let ph2 = a.new_atom(&[4u8; 32]).expect("atom");
-            let op = a.new_atom(&[51]).expect("atom");
-            let l3 = a.new_pair(memos, nil).expect("pair");
-            let l2 = a.new_pair(amt, l3).expect("pair");
-            let l1 = a.new_pair(ph2, l2).expect("pair");
-            let cond = a.new_pair(op, l1).expect("pair");
-            let conds = a.new_pair(cond, nil).expect("pair");
+            let conds = if how == "clvm_substr" {
+                // the condition list as the output of a CLVM program: the hint is (substr BIG 7 7)
+                let q = |x: Sx| Sx::cons(Sx::A(vec![1]), x);
+                let c = |x: Sx, y: Sx| Sx::list(vec![Sx::A(vec![4]), x, y]);
+                let hint = Sx::list(vec![Sx::A(vec![12]), q(Sx::A(vec![9u8; 40])), q(Sx::A(vec![7])), q(Sx::A(vec![7]))]);
+                let memos = c(hint, q(Sx::nil()));
+                let cond = c(q(Sx::A(vec![51])), c(q(Sx::A(vec![4u8; 32])), c(q(Sx::A(vec![1])), c(memos, q(Sx::nil())))));
+                let prog = c(cond, q(Sx::nil())).to_node(&mut a);
+                let dialect = clvmr::chia_dialect::ChiaDialect::new(ConsensusFlags::empty().to_clvm_flags());
+                match clvmr::run_program::run_program(&mut a, &dialect, prog, nil, 1_000_000) {
+                    Ok(clvmr::reduction::Reduction(_, out)) => out,
+                    Err(_) => panic!("clvm program failed"),
+                }
+            } else {
+                let hint = match how {
+                    "nil" => a.nil(),
+                    "new_atom" => a.new_atom(&[]).expect("atom"),
+                    _ => a.new_substr(big, 7, 7).expect("substr"),
+                };
+                let memos = a.new_pair(hint, nil).expect("pair");
+                let amt = a.new_atom(&[1]).expect("atom");
+                let ph2 = a.new_atom(&[4u8; 32]).expect("atom");
+                let op = a.new_atom(&[51]).expect("atom");
+                let l3 = a.new_pair(memos, nil).expect("pair");
+                let l2 = a.new_pair(amt, l3).expect("pair");
+                let l1 = a.new_pair(ph2, l2).expect("pair");
+                let cond = a.new_pair(op, l1).expect("pair");
+                a.new_pair(cond, nil).expect("pair")
+            };
             let parent = a.new_atom(&[1u8; 32]).expect("atom");
             let ph = a.new_atom(&[2u8; 32]).expect("atom");
             let amount = a.new_atom(&[100]).expect("atom");
@@ -686,6 +746,13 @@ pub fn record(args: &Args) {
     let mut out = Out::create(args.req("out"));
     let consts = Consts::random(&mut r);
     let nsample = args.u64("sample", 6) as usize;
+    if let Some(file) = args.get("replay") {
+        for e in read_ndjson(file) {
+            if let Some(ev) = replay_event(&e, &mut r, &consts) {
+                out.emit(&ev);
+            }
+        }
+    }
     if let Some(cases) = args.get("cases") {
         for c in read_ndjson(cases) {
             if c["k"].as_str() == Some("lat") {
